@@ -571,6 +571,12 @@ pub fn drain_and_probe(w: &mut World, rec: &mut Recorder) {
         let mut progressed = false;
         // (the drain is not about interleavings: detach calls in progress are completed at once)
         w.flush_lazy();
+        // a task that was sent ahead goes through as soon as the mutex it waits for is free
+        for t in 0..n {
+            if w.early[t] && !w.early_ready(t) && !w.lock_held() {
+                w.await_early(t);
+            }
+        }
         // the holder of the slots lock goes first
         let mut order: Vec<usize> = (0..n).collect();
         order.sort_by_key(|t| !matches!(w.ts[*t], TState::AtPoint("m.resize.forget") | TState::AtPoint("m.resize.grow")));
